@@ -23,6 +23,8 @@ type speaker struct {
 	MapName func(string) string
 	// Deco: labels the protocol adds by itself (measurement, type=datadog, __name__)
 	Deco []ir.Label
+	// Extra: control labels sent along that are not part of the series identity (__ttl_days__)
+	Extra []ir.Label
 	// Stored: the label set the protocol is documented to store for the given labels
 	Stored func([]ir.Label) []ir.Label
 }
@@ -41,6 +43,7 @@ func storedAsIs(l []ir.Label) []ir.Label { return append([]ir.Label{}, l...) }
 
 var speakers = []speaker{
 	{Name: "loki_json_stream_values", P: ir.LokiJSON, Opt: ir.Opt{Layout: 0}, MapName: ident, Stored: ir.Sanitized},
+	{Name: "loki_json_with_ttl_label", P: ir.LokiJSON, Opt: ir.Opt{Layout: 0}, MapName: ident, Extra: []ir.Label{{Name: "__ttl_days__", Value: "7"}}, Stored: ir.Sanitized},
 	{Name: "loki_json_labels_entries", P: ir.LokiJSON, Opt: ir.Opt{Layout: 1}, MapName: ident, Stored: ir.Sanitized},
 	{Name: "loki_proto", P: ir.LokiProto, MapName: ident, Stored: ir.Sanitized},
 	{Name: "remote_write", P: ir.RemoteWrite, MapName: ident, Stored: ir.Sanitized},
@@ -150,6 +153,10 @@ func (a *partA) eval(sp *speaker, labels []ir.Label, decoy bool) {
 	full := append([]ir.Label{}, sp.Deco...)
 	for _, l := range labels {
 		full = append(full, ir.Label{Name: sp.MapName(l.Name), Value: l.Value})
+	}
+	if len(sp.Extra) > 0 { // the control label goes in the middle
+		k := len(full) / 2
+		full = append(append(append([]ir.Label{}, full[:k]...), sp.Extra...), full[k:]...)
 	}
 	e := ir.Entry{TsNs: 1704888000 * 1e9, Line: "l", Type: ir.TypeLog}
 	if !strings.Contains(sp.P.Kinds, "l") {
